@@ -46,7 +46,8 @@ module.exports = {
   level: 'model_checking',
   rule: 'explicit-state BFS over module-item histories (item = syntactic context ∘ lowering, distractor, or statement-level form; all items at length 1, focus×focus pairs, core triples; deeper in the thorough tier); every history is transformed by the real visitor and executed, every item has an observation point that is activated twice (slots invoked), and its canonical value must equal the canonical value of the same item transformed and executed alone. Differential oracle, no hand-written expectation. Distinct = distinct canonical observation vectors.',
   assumptions: ['mock Vue runtime', 'node evaluator', 'distractor assignments re-assign the value already held, so composing items cannot change run-time values by itself'],
-  spaces: (tier) => G.spaces(tier, (items) => ({ items })),
+  prepare: async (tier) => (tier === 'thorough' ? G.skeleton(2, OPTS) : null),
+  spaces: (tier, prepared) => G.spaces(tier, (items) => ({ items })).concat(tier === 'thorough' ? [G.canonicalSpace(prepared, (items) => ({ items }))] : []),
   requests, judge,
   *shrink(c) { for (const items of G.shrinkItems(c.items)) if (items.length) yield { items }; },
   caseKey: (c) => G.key(c.items),
